@@ -465,7 +465,7 @@ func Main(shape bool) {
 	rng := r.Rand()
 	n := 260
 	if r.Thorough() {
-		n = 6000
+		n = 2000
 	}
 	r.Do("types")
 	for i := range Types {
